@@ -51,6 +51,9 @@ class Atoms:
         self.keep = []       # keep z3 terms alive (ids are used as keys)
         self.calls = 0
         self.names = {}
+        self.classes = []    # canonical classes of limit expressions: list of (representative Sym, key)
+        self.canon_queries = 0
+        self.canon_cache = {}
 
     # -- raw values ------------------------------------------------------------------------
     def _atom(self, key, label):
@@ -79,7 +82,65 @@ class Atoms:
         if lim is None:
             return self._atom(('I', a, b), 'I_%d%d_%d%d' % (a[0], a[1], b[0], b[1]))
         self.keep.append(lim)
-        return self._atom(('I12', a, b, skey(lim[0]), skey(lim[1])), 'I12_%d%d_%d%d' % (a[0], a[1], b[0], b[1]))
+        klo, khi = self.canon(lim[0]), self.canon(lim[1])
+        if klo == ('q', Fraction(-1)) and khi == ('q', Fraction(1)):
+            # end-point lemma (C10): the sub-interval table over [-1,1] is the full-interval table
+            return self._atom(('I', a, b), 'I_%d%d_%d%d' % (a[0], a[1], b[0], b[1]))
+        if klo == khi:
+            return Sym.lift(0)   # empty interval (C10: antiderivative-difference form)
+        return self._atom(('I12', a, b, klo, khi), 'I12_%d%d_%d%d' % (a[0], a[1], b[0], b[1]))
+
+    def canon(self, x):
+        """canonical key of a limit expression: two expressions get the same key iff z3 proves them identical"""
+        x = Sym.lift(x)
+        k0 = skey(x)
+        if k0[0] == 'q':
+            return k0
+        if k0 in self.canon_cache:
+            return self.canon_cache[k0]
+        from .sym import identity_terms
+        for rep, key in self.classes:
+            L, R = identity_terms(x, rep)
+            s = z3.Tactic('qfnra-nlsat').solver()
+            s.set('timeout', 20000)
+            s.add(L != R)
+            self.canon_queries += 1
+            if s.check() == z3.unsat:
+                self.canon_cache[k0] = key
+                return key
+        # numeric candidates -1, 0, 1 (e.g. 2*b/b - 1)
+        for q in (Fraction(-1), Fraction(1), Fraction(0)):
+            L, R = identity_terms(x, Sym(q))
+            s = z3.Tactic('qfnra-nlsat').solver()
+            s.set('timeout', 20000)
+            s.add(L != R)
+            self.canon_queries += 1
+            if s.check() == z3.unsat:
+                self.canon_cache[k0] = ('q', q)
+                return ('q', q)
+        key = ('c', len(self.classes))
+        self.classes.append((x, key))
+        self.canon_cache[k0] = key
+        return key
+
+    def additivity_constraints(self):
+        """z3 equalities  I12(a,b;lo,mid) + I12(a,b;mid,hi) == I12(a,b;lo,hi)  (and == full-interval atom when
+        lo,hi = -1,1) for every triple of sub-interval atoms present -- the additivity lemma discharged by C10"""
+        by = {}
+        for key, atom in self.table.items():
+            if key[0] == 'I12':
+                by.setdefault((key[1], key[2]), {})[(key[3], key[4])] = atom
+        cons = []
+        for (a, b), d in by.items():
+            full = self.table.get(('I', a, b))
+            spans = dict(d)
+            if full is not None:
+                spans[(('q', Fraction(-1)), ('q', Fraction(1)))] = full
+            for (lo, mid), x in d.items():
+                for (mid2, hi), y in d.items():
+                    if mid2 == mid and (lo, hi) in spans:
+                        cons.append(x.n + y.n == spans[(lo, hi)].n)
+        return cons
 
     def raw_c0c1(self, d1, i, d2, j, c0, c1):
         if self.mode == 'exact':
